@@ -225,6 +225,41 @@ def part_bcd(spec, out):
                     continue
                 out["keys"].append(gen.case_key([info.name, "c", name, ppath]))
                 r.remove()
+                # (c2) public method / property names that are not protected: attribute *assignment* and *deletion*
+                # address the key (reading such a name gives the method, by design)
+                if name in protected or name.startswith("_"):
+                    continue
+                n += 1
+                r = catalog.Resource(info, scratch, f"prot{n}")
+                r.outside_write(copy.deepcopy(INIT), bump=False)
+                obj = r.new_handle()
+                p = _nav(obj, ppath)
+                before = dict(vars(p))
+                out["evaluations"] += 1
+                try:
+                    setattr(p, name, {"stored": name})
+                    got = model.to_plain(p[name])
+                    fresh = model.to_plain(_nav(r.new_handle(), ppath)[name])
+                except Exception as e:  # noqa: BLE001
+                    V("attr_set_not_item_set", f"obj.{name} = v, then obj[{name!r}]: {type(e).__name__}: {e}")
+                    continue
+                if got != {"stored": name} or fresh != {"stored": name}:
+                    V("attr_set_not_item_set", f"after obj.{name} = v: obj[{name!r}] = {got!r}, a fresh object reads {fresh!r}")
+                    continue
+                if set(vars(p)) != set(before):
+                    V("attr_set_not_item_set", f"obj.{name} = v created instance attributes {sorted(set(vars(p)) - set(before))}")
+                    continue
+                try:
+                    delattr(p, name)
+                    gone = name not in _nav(r.new_handle(), ppath)
+                except Exception as e:  # noqa: BLE001
+                    V("attr_del_not_item_del", f"del obj.{name}: {type(e).__name__}: {e}")
+                    continue
+                if not gone:
+                    V("attr_del_not_item_del", f"del obj.{name} left the key in place")
+                    continue
+                out["keys"].append(gen.case_key([info.name, "c2", name, ppath]))
+                r.remove()
         # ---- (e) two families on one file: a non-attribute object of the sibling family and an attribute object
         # share the file (unbuffered, and inside both classes' backend-wide contexts); whichever touches it first,
         # every node under the attribute object must belong to the attribute family and writes through them persist
